@@ -127,6 +127,7 @@ pub struct Agg {
     pub late_starts: u64,
     pub clock_jumps: u64,
     pub panicking_calls: u64,
+    pub at_exit_calls: u64,
     pub edges: u64,
     pub edge_offers: u64,
     pub cold_runs: u64,
@@ -193,6 +194,7 @@ impl Agg {
         self.late_starts += r.late_starts;
         self.clock_jumps += r.clock_jumps;
         self.panicking_calls += r.panicking_calls;
+        self.at_exit_calls += r.at_exit_calls;
         self.edges += r.edges;
         self.edge_offers += r.edge_offers;
         if r.cold {
@@ -1052,6 +1054,7 @@ pub fn check(tier_name: &str, base_seed: u64) -> Outcome {
                 "F10_late_starter_after_another_thread_exited": a.late_starts,
                 "F11_simulated_clock_jumps": a.clock_jumps,
                 "F2b_call_made_from_a_destructor_while_the_caller_unwinds": a.panicking_calls,
+                "F10b_call_registered_for_thread_local_destructor_at_thread_exit": a.at_exit_calls,
             },
             "harness_probes": {
                 "calls_overlapping_on_same_object": a.same_obj_overlap,
